@@ -17,7 +17,7 @@ theorem takeWhile_all {α} (p : α → Bool) (l : List α) : ∀ x ∈ l.takeWhi
       rcases List.mem_cons.mp hx with h | h
       · subst h; exact ha
       · exact ih x h
-    · simp [List.takeWhile_cons, ha] at hx
+    · simp [ha] at hx
 
 theorem dropWhile_nil_of_all {α} (p : α → Bool) (l : List α) (h : ∀ x ∈ l, p x = true) : l.dropWhile p = [] := by
   induction l with
@@ -33,7 +33,7 @@ theorem dropWhile_id_of_head {α} (p : α → Bool) (l : List α) (h : ∀ a, l.
   | nil => rfl
   | cons a t =>
     have := h a rfl
-    simp [List.dropWhile_cons, this]
+    simp [this]
 
 /-- `rpartition`: without the separator the whole string is the tail; with it, the string splits at the last one -/
 theorem rpartition_spec (sep : Char) (s : Text) :
@@ -105,7 +105,7 @@ theorem stripChar_id (a : Char) (s : Text) (h1 : s.head? ≠ some a) (h2 : s.get
   rw [e2, List.reverse_reverse]
 
 theorem stripChar_cons (a : Char) (s : Text) : stripChar a (a :: s) = stripChar a s := by
-  simp [stripChar, List.dropWhile_cons]
+  simp [stripChar]
 
 /-- a descriptor name the library accepts: no dot, no slash at either end (implied by RE_VALID_RECORD_TYPE_NAME) -/
 structure NameOk (n : Text) : Prop where
@@ -311,7 +311,8 @@ theorem takeRow_emit (L : AvroLaws) (F : FloatLaws) (cols : List (String × ATyp
           subst h1; subst h2
           have := ih vs (i + 1) toks' rest hr
           simp [takeRow, L.stored_ok F t v ha, this]
-      · simp [ha] at h
+      · simp only [ha, Bool.false_eq_true, if_false] at h
+        split at h <;> simp at h
 
 /-- all values of the record are accepted, column by column -/
 def allAccepted (L : AvroLaws) : List (String × AType) → List Val → Bool
@@ -331,7 +332,8 @@ theorem emitRow_ok_iff (L : AvroLaws) (F : FloatLaws) (cols : List (String × AT
     | cons v vs =>
       by_cases ha : L.accepts t v = true
       · simp [emitRow, allAccepted, ha, ih vs (i + 1)]
-      · simp [emitRow, allAccepted, ha]
+      · simp only [emitRow, allAccepted, ha, Bool.false_eq_true, if_false, Bool.false_and, iff_false]
+        split <;> simp
 
 /-- `chunks` are the token groups of `rows`: each decodes, wherever it stands, to its row and nothing more -/
 def Chunked (L : AvroLaws) (cols : List (String × AType)) : List (List Val) → List (List Val) → Prop
